@@ -310,7 +310,7 @@ def run_case(desc):
                     if n.kind == "lit":
                         continue  # only calls are examined / counted
                     fq = "source" if n.kind == "source" else "vmonfn." + n.fname
-                    key = (*n.scope, fq) + (("vmon.vstore.VStore",) if n.id in S.reg else ())
+                    key = (*n.scope, fq) + (("vmon.vstore." + type(S.stores[n.id]).__name__,) if n.id in S.reg else ())
                     want[key] += 1
                 if out_ids is not None and not isinstance(out_ids, regmodel.Bare):
                     want[("gather_list",)] += 1
